@@ -105,6 +105,9 @@ func (p *Program) computeMods() {
 						}
 						continue
 					}
+					if fromLibrary(c.Value, 0) {
+						continue // e.g. the cancel function returned by context.WithTimeout: library code cannot name pike's fields
+					}
 					ms.unknown = true
 				}
 			}
@@ -159,6 +162,43 @@ func (p *Program) computeMods() {
 			}
 		}
 	}
+}
+
+// fromLibrary: the function value called is the result of a library call (and so
+// is library code), possibly through a local variable.
+func fromLibrary(v ssa.Value, d int) bool {
+	if d > 4 {
+		return false
+	}
+	switch x := v.(type) {
+	case *ssa.Extract:
+		return fromLibrary(x.Tuple, d+1)
+	case *ssa.Call:
+		if sc := x.Call.StaticCallee(); sc != nil && !isPikeFunc(sc) {
+			return true
+		}
+	case *ssa.UnOp:
+		if al, ok := x.X.(*ssa.Alloc); ok {
+			all, any := true, false
+			for _, r := range *al.Referrers() {
+				if st, ok := r.(*ssa.Store); ok && st.Addr == al {
+					any = true
+					if !fromLibrary(st.Val, d+1) {
+						all = false
+					}
+				}
+			}
+			return any && all
+		}
+	case *ssa.Phi:
+		for _, e := range x.Edges {
+			if !fromLibrary(e, d+1) {
+				return false
+			}
+		}
+		return len(x.Edges) > 0
+	}
+	return false
 }
 
 type callEdge struct {
